@@ -577,6 +577,7 @@ class SoftwareSwitchBase (object):
       raise RuntimeError("Can't remove nonexistent port " + str(port_no))
     self.send_port_status(port, OFPPR_DELETE)
     del self.ports[port_no]
+    self.port_stats.pop(port_no, None)
     return port
 
   def add_port (self, port):
